@@ -29,6 +29,9 @@ class ReparseOracle(docexp.Oracle):
             return False
         return True
 
+    def pre(self, root, op):
+        return tree.glued_pairs(root.token_store)
+
     def post(self, root, op, ap, pre, res, case):
         text = tree.pr(root)
         where = f'{case["text"]!r} after {case["ops"]}: printed {text!r}: '
@@ -37,6 +40,13 @@ class ReparseOracle(docexp.Oracle):
             res.counters['skipped: documented custom ambiguity (unary-led number after a number)'] += 1
             return
         again = docs.try_parse(text, M.File, True)
+        glued = tree.newly_glued(pre, root.token_store) if pre is not None else []
+        if glued and (again is None or tree.cmp_signature(root) != tree.cmp_signature(again)):
+            # known finding F22: identified by what the edit did to the token sequence, not by the call site
+            a, b = glued[0]
+            res.fail('C06/removal-leaves-two-surviving-tokens-touching',
+                     where + f'the edit removed everything between {a!r} and {b!r}, which were apart in the input; they now lex differently')
+            return
         if again is None:
             if COL0_COMMENT_INSIDE_BLOCK.search(text):
                 # known finding F17: identified by the structural feature of the *document*
